@@ -99,6 +99,7 @@ type plug struct {
 	onEst    func(peer string, w corebgp.UpdateMessageWriter)
 	onUpd    func()
 	updSleep time.Duration
+	updNotif *corebgp.Notification // returned by the update handler (after updSleep)
 }
 
 func (p *plug) GetCapabilities(pc corebgp.PeerConfig) []corebgp.Capability {
@@ -127,7 +128,7 @@ func (p *plug) OnEstablished(pc corebgp.PeerConfig, w corebgp.UpdateMessageWrite
 		if p.updSleep > 0 {
 			time.Sleep(p.updSleep)
 		}
-		return nil
+		return p.updNotif
 	}
 }
 
@@ -733,6 +734,177 @@ func c06Prop(c c06Case) hx.Verdict {
 	return v
 }
 
+// c06Reuse: two sessions in a row on corebgp's outbound FSM (one object for the life of the
+// peer). In the first the update handler outlasts the hold time - the hold timer fires into
+// its buffered channel while the FSM goroutine is in the plugin - and the session then ends
+// without damping (the handler returns a Cease, or the remote has closed meanwhile). The
+// second session, on a new connection, gets a KEEPALIVE every second: no Hold Timer Expired
+// can arrive earlier than the hold time after our OPEN was written, whatever the load.
+type c06Reuse struct {
+	PastMs int    `json:"past_ms"` // the handler returns that long after the hold deadline
+	End    string `json:"end"`     // handler-cease, fin
+}
+
+type c06ReuseCase struct {
+	Scns []c06Reuse `json:"scenarios"`
+}
+
+func runC06Reuse(i int, sc c06Reuse) (dev *hx.Dev, class string) {
+	const H = 3 * time.Second
+	remote := fmt.Sprintf("h%d", 40+i)
+	rl, err := net.Listen("tcp", addr(remote)+":0")
+	if err != nil {
+		return nil, "skipped-listen-failed"
+	}
+	defer rl.Close()
+	rport := rl.Addr().(*net.TCPAddr).Port
+	s, err := newServer("10.255.0.1", nil)
+	if err != nil {
+		return nil, "skipped-listen-failed"
+	}
+	s.plug.updSleep = H + time.Duration(sc.PastMs)*time.Millisecond
+	if sc.End == "handler-cease" {
+		s.plug.updNotif = &corebgp.Notification{Code: 6, Subcode: 2}
+	}
+	peer := netip.MustParseAddr(addr(remote))
+	if err := s.srv.AddPeer(corebgp.PeerConfig{RemoteAddress: peer, LocalAS: 64512, RemoteAS: 64513}, s.plug,
+		corebgp.WithPort(rport), corebgp.WithIdleHoldTime(30*time.Millisecond), corebgp.WithConnectRetryTime(300*time.Millisecond), corebgp.WithHoldTime(3)); err != nil {
+		return hx.Devf("setup", "%v", err), "setup"
+	}
+	s.serve()
+	defer func() {
+		if !s.closeBounded(20*time.Second) && dev == nil {
+			dev = hx.Devf("close-blocked", "Server.Close did not return within 20 s")
+		}
+	}()
+	accept := func(d time.Duration) net.Conn {
+		rl.(*net.TCPListener).SetDeadline(time.Now().Add(d))
+		cn, err := rl.Accept()
+		if err != nil {
+			return nil
+		}
+		return cn
+	}
+	// exchange: read corebgp's OPEN, answer, read its KEEPALIVE, answer; returns when our OPEN was written
+	exchange := func(cn net.Conn) (openAt time.Time, ok bool) {
+		if typ, _, err := readMsg(cn, 2*time.Second); err != nil || typ != wire.TypeOpen {
+			return openAt, false
+		}
+		openAt = time.Now()
+		if _, err := cn.Write(wire.NewOpen(64513, 3, 0x0a000002).Frame()); err != nil {
+			return openAt, false
+		}
+		if typ, _, err := readMsg(cn, 2*time.Second); err != nil || typ != wire.TypeKeepalive {
+			return openAt, false
+		}
+		if _, err := cn.Write(wire.Keepalive()); err != nil {
+			return openAt, false
+		}
+		return openAt, true
+	}
+	// session 1
+	c1 := accept(3 * time.Second)
+	if c1 == nil {
+		return nil, "inconclusive-no-dial"
+	}
+	if _, ok := exchange(c1); !ok {
+		c1.Close()
+		return nil, "inconclusive-handshake"
+	}
+	c1.Write(wire.Frame(wire.TypeUpdate, []byte{0, 0, 0, 0}))
+	if sc.End == "fin" {
+		// the remote goes away while the handler is still busy, past the hold deadline
+		time.Sleep(H + time.Duration(sc.PastMs/2)*time.Millisecond)
+		c1.Close()
+	} else {
+		// wait for the handler's Cease (or whatever ends the session)
+		for {
+			if _, _, err := readMsg(c1, 2*H+5*time.Second); err != nil {
+				break
+			}
+		}
+		c1.Close()
+	}
+	// session 2, after the idle-hold time
+	s.plug.updNotif = nil
+	c2 := accept(s.plug.updSleep + 5*time.Second)
+	if c2 == nil {
+		return nil, "inconclusive-no-redial"
+	}
+	defer c2.Close()
+	// second session: from our OPEN on, nothing may expire for a hold time
+	if typ, _, err := readMsg(c2, 2*time.Second); err != nil || typ != wire.TypeOpen {
+		return nil, "inconclusive-second-handshake"
+	}
+	openAt := time.Now()
+	if _, err := c2.Write(wire.NewOpen(64513, 3, 0x0a000002).Frame()); err != nil {
+		return nil, "inconclusive-second-handshake"
+	}
+	class = "second-session-observed"
+	stopKA := make(chan struct{})
+	defer close(stopKA)
+	go func() {
+		tk := time.NewTicker(time.Second)
+		defer tk.Stop()
+		for {
+			select {
+			case <-stopKA:
+				return
+			case <-tk.C:
+				c2.Write(wire.Keepalive())
+			}
+		}
+	}()
+	for time.Since(openAt) < H {
+		typ, body, err := readMsg(c2, H-time.Since(openAt)+10*time.Millisecond)
+		if err != nil {
+			break
+		}
+		switch typ {
+		case wire.TypeKeepalive:
+			if time.Since(openAt) < 500*time.Millisecond {
+				c2.Write(wire.Keepalive()) // completes the handshake
+			}
+		case wire.TypeNotification:
+			n, _ := wire.ParseNotif(body)
+			if el := time.Since(openAt); n.Code == 4 && el < H-50*time.Millisecond {
+				return hx.Devf("expired-early", "scenario %+v: second session on the outbound FSM: Hold Timer Expired arrived %v after our OPEN was written (hold time %v; a KEEPALIVE was sent every second)", sc, el.Round(time.Millisecond), H), class
+			}
+			return nil, class
+		}
+	}
+	return nil, class
+}
+
+func c06ReuseProp(c c06ReuseCase) hx.Verdict {
+	v := hx.Verdict{}
+	devs := make([]*hx.Dev, len(c.Scns))
+	classes := make([]string, len(c.Scns))
+	var wg sync.WaitGroup
+	for i, sc := range c.Scns {
+		wg.Add(1)
+		go func() {
+			defer wg.Done()
+			devs[i], classes[i] = runC06Reuse(i, sc)
+		}()
+	}
+	wg.Wait()
+	seen := 0
+	for i := range c.Scns {
+		if devs[i] != nil && v.Dev == nil {
+			v.Dev = devs[i]
+		}
+		if classes[i] == "second-session-observed" {
+			seen++
+		}
+	}
+	v.Class = fmt.Sprintf("scenarios=%d/second-session-observed>=1=%v", len(c.Scns), seen >= 1)
+	if seen >= 1 {
+		v.NT = fmt.Sprintf("%+v", c)
+	}
+	return v
+}
+
 func TestTCPC06(t *testing.T) {
 	r := hx.Start(t, "C06")
 	defer r.Finish(t)
@@ -754,6 +926,13 @@ func TestTCPC06(t *testing.T) {
 		}
 		return c
 	}, cur(r, "tcp_handler_crosses_deadline", c06Prop))
+	hx.Rapid(r, t, "tcp_second_session_after_late_handler", r.N(1, 6), func(rt *rapid.T) c06ReuseCase {
+		var c c06ReuseCase
+		for i, n := 0, rapid.IntRange(4, 6).Draw(rt, "n"); i < n; i++ {
+			c.Scns = append(c.Scns, c06Reuse{PastMs: []int{300, 600, 1200}[rapid.IntRange(0, 2).Draw(rt, "past")], End: []string{"handler-cease", "fin"}[i%2]})
+		}
+		return c
+	}, cur(r, "tcp_second_session_after_late_handler", c06ReuseProp))
 }
 
 // ---------------------------------------------------------------- C03: delivery over real TCP with tiny writes
